@@ -28,6 +28,12 @@ RULE = ("a case is a trace of operations on one real provider: authorization par
         "digits, surrounding whitespace, trailing fragment / query / slash, percent-encoded characters, UUID without dashes / in "
         "braces) x every word P{V,L}^1..3 with a V (V = redeem through the spelling, L = through the exact urn: before, after, "
         "repeatedly) + words with a signed push, ticks and two pushes, x {OAuth2, OIDC}; random words mixing spellings. "
+        "(6) the wrapper dimension: a JWE to the provider's RSA-OAEP / ECDH-ES key around {claims nobody signed, alg=none JWS, JWS under a "
+        "foreign / another client's key, signature not covering the payload, no signature, genuine RS256/ES256/HS256 (permitted or not "
+        "by the configuration)}, a JWE to a key the provider lacks, truncated / altered JWEs, x registered request_object_signing_alg "
+        "{absent, RS256, ES256, HS256, none} x provider sets x 3 transports x flavours x cty {absent, JWT}; other cty / alg / enc "
+        "header values, JWE in JWE, other plaintexts; registered request_object_encryption_alg/_enc matching / not matching the wrapper "
+        "x provider sets; claims of another client inside the wrapper x client-authn set-ups; PAR words with wrapped pushes; random. "
         "Non-trivial = at least one object/pushed request "
         "is accepted or a refusal is caused by exactly one fault.")
 ASSUMPTIONS = [
@@ -38,7 +44,9 @@ ASSUMPTIONS = [
     "uuid4 request_uri values are fresh (never issued twice): C16_par_once assumes NoDup of the pushed request_uris",
     "client authentication at the PAR endpoint is C01's subject: the harness always presents valid credentials of the pusher",
     "redirect URIs are simple https URIs compared as strings (URI matching is C06's subject)",
-    "encrypted (JWE) request objects, jti/exp/nbf claims, nested request/request_uri claims are outside the modelled fragment",
+    "an encrypted wrapper (JWE) is ideal: it opens iff it is addressed to a key the provider holds and is intact (Model/Jar.v jwe_state); "
+    "the key-management / content-encryption algorithms do not matter (both RSA-OAEP and ECDH-ES are driven)",
+    "jti/exp/nbf claims, nested request/request_uri claims are outside the modelled fragment",
 ]
 
 ISS = "https://example.com/"
@@ -104,7 +112,8 @@ CONST = {"client_id": "k_client_id", "redirect_uri": "k_redirect_uri", "scope": 
          "https://client_2.example.com/cb": "s_r2", "openid": "s_openid", "email": "s_email", "code": "s_code",
          "https://example.com/": "s_op", "<JWS>": "s_jws", "RS256": "s_rs256", "ES256": "s_es256", "HS256": "s_hs256",
          "RS384": "s_rs384", "none": "s_none", "in0": "s_in0", "out0": "s_out0",
-         "https://client_1.example.com/ro/0": "s_doc0"}
+         "https://client_1.example.com/ro/0": "s_doc0", "RSA-OAEP": "s_rsa_oaep", "ECDH-ES": "s_ecdh_es",
+         "A256GCM": "s_a256gcm", "A128GCM": "s_a128gcm"}
 _coq_str = coq_str
 
 
@@ -131,10 +140,22 @@ def coq_params(d):
     return coq_list(["(%s, %s)" % (coq_str(k), coq_pv(v)) for k, v in d.items()], "(pystr * pv)")
 
 
+JSTATE = {None: "JOpens", "tag": "JDamaged", "cut": "JDamaged", "seg4": "JDamaged"}
+
+
 def coq_wobj(o):
     import srv_c16 as S
     if "bad" in o:
         return "WBad"
+    if "jwe" in o:
+        h, inner = o["jwe"], o["inner"]
+        st = "JNoKey" if h["to"] != "OP" else JSTATE[h.get("damage")]
+        hdr = "(jhdr %s %s %s %s)" % (coq_str(h["alg"]), coq_str(h["enc"]), coq_bool((h.get("cty") or "").lower() == "jwt"), st)
+        if "json" in inner:
+            return "(wencj %s %s)" % (hdr, coq_params(canon_claims(inner["json"])))
+        if "text" in inner or "jwe" in inner:
+            return "(WEnc %s IOther)" % hdr
+        return "(wenc %s %s)" % (hdr, coq_wobj(inner))
     sg = o.get("sig")
     cl = coq_params(canon_claims(o["claims"]))
     if sg is None:
@@ -164,15 +185,18 @@ HOOK = {"Authorization._do_request_uri": "HDoRequestUri", "PushedAuthorization._
 
 def coq_cfg_var(oc):
     """the per-case variable part of the configuration (compact)"""
-    cl = coq_list(["(%s, %s, %s)" % (coq_str(c["cid"]), coq_reg(c["reg"]),
-                                       coq_opt(c["request_uris"], lambda l: coq_list([coq_str(x) for x in l], "pystr"), "(list pystr)"))
-                   for c in oc["clients"]], "(pystr * regalg * option (list pystr))")
-    return "(%s, %s, %s, %s, %s, %s, %s, %s, %s, %s)" % (
+    sl = lambda l: coq_list([coq_str(x) for x in l], "pystr")
+    cl = coq_list(["(%s, %s, %s, %s, %s)" % (coq_str(c["cid"]), coq_reg(c["reg"]),
+                                               coq_opt(c["request_uris"], sl, "(list pystr)"),
+                                               coq_opt(c.get("enc_alg"), coq_str, "pystr"), coq_opt(c.get("enc_enc"), coq_str, "pystr"))
+                   for c in oc["clients"]], "(pystr * regalg * option (list pystr) * option pystr * option pystr)")
+    return "(%s, %s, %s, %s, %s, %s, %s, %s, %s, %s, %s, %s)" % (
         coq_bool(oc["oidc"]), coq_bool(oc["has_par"]), coq_list([METH[m] for m in oc["methods"]], "meth"),
         coq_bool(oc["methods_configured"]), coq_list([HOOK.get(h, "HOther") for h in oc["hooks"]], "hook"),
         coq_list([HOOK.get(h, "HOther") for h in oc["par_hooks"]], "hook"),
         "None" if oc["prov_algs"] == oc.get("prov_default") else "(Some %s)" % coq_list([coq_str(a) for a in oc["prov_algs"]], "pystr"),
-        coq_bool(oc["ru_supported"]), coq_z(oc["ttl"]), cl)
+        coq_bool(oc["ru_supported"]), coq_z(oc["ttl"]), cl,
+        coq_opt(oc.get("prov_enc_algs"), sl, "(list pystr)"), coq_opt(oc.get("prov_enc_encs"), sl, "(list pystr)"))
 
 
 KTY = {"RSA": "KRsa", "EC": "KEc", "oct": "KOct"}
@@ -242,6 +266,13 @@ def modelled(world_oidc, ops, docs):
     def obj_ok(o):
         if o is None or "bad" in o:
             return True
+        if "jwe" in o:
+            inner = o["inner"]
+            if "text" in inner or "jwe" in inner:
+                return True
+            if "json" in inner:
+                return obj_ok({"alg": "none", "claims": inner["json"], "sig": None})
+            return obj_ok(inner)
         if o["alg"] not in S.ALG_KTY:
             return False
         for c in [o["claims"]] + ([o["sig"]["claims"]] if o.get("sig") else []):
@@ -291,6 +322,7 @@ class Runner:
         self.srv = srv
         self.cases = {}       # static literal -> list of (term, record)
         self.accepted_genuine = 0
+        self.accepted_wrapped = set()
         self.hooks_bad = False
 
     def world(self, oidc, methods="all", has_par=True, ttl=3600):
@@ -459,8 +491,9 @@ class Runner:
         return rec
 
     # ---- the oracle for one object that may have taken effect
-    def judge_object(self, rec, transport, obj, outer, out, ident, reg, prov, when=""):
-        """out: canonical accepted outcome (or stored snapshot); ident: the client the effective request is attributed to"""
+    def judge_object(self, rec, transport, obj, outer, out, ident, reg, prov, when="", wrapped=None):
+        """out: canonical accepted outcome (or stored snapshot); ident: the client the effective request is attributed to;
+        wrapped: the object came inside an encrypted wrapper ("jws": a JWS inside; "json": claims nobody signed)"""
         ctx, S = self.ctx, self.S
         if obj is None or out is None or out.get("k") != "acc":
             return
@@ -469,11 +502,28 @@ class Runner:
             if out.get("vr"):
                 ctx.violation("malformed-effect", "%s: a malformed request object produced a verified request" % transport, rec)
             return
+        if "jwe" in obj:
+            # encryption adds no authority: what counts is the innermost object - a JWS signed by the identified
+            # client's registered key with a permitted algorithm; anything else inside the wrapper is unsigned / nothing
+            h, inner = obj["jwe"], obj["inner"]
+            kind = "json" if "json" in inner else "jws" if "claims" in inner else "other"
+            ic = canon_claims(inner["json"] if kind == "json" else inner["claims"]) if kind != "other" else {}
+            if not (bool(out.get("vr")) or any(eff.get(k) == v and outer.get(k) != v for k, v in ic.items())):
+                return
+            if h["to"] != "OP" or h.get("damage"):
+                ctx.violation("jwe-unopened-effect", "%s: a wrapper the provider cannot decrypt (to=%s, damage=%s) produced a verified "
+                              "request" % (transport, h["to"], h.get("damage")), rec)
+                return
+            if kind == "other":
+                ctx.violation("malformed-effect", "%s: a wrapper around something that is neither a JWS nor claims produced a verified request" % transport, rec)
+                return
+            inner_obj = {"alg": "none", "claims": inner["json"], "sig": None} if kind == "json" else inner
+            return self.judge_object(rec, transport, inner_obj, outer, out, ident, reg, prov, when=when, wrapped=kind)
         claims = canon_claims(obj["claims"])
         took = bool(out.get("vr")) or any(eff.get(k) == v and outer.get(k) != v for k, v in claims.items())
         if not took:
             return
-        tag = "%s%s" % (transport, "/" + when if when else "")
+        tag = "%s%s%s" % (transport, "/" + when if when else "", "/jwe(%s)" % wrapped if wrapped else "")
         alg, sg = obj["alg"], obj.get("sig")
         if ident not in ("client_1", "client_2"):
             ctx.violation("no-identified-client", "%s: object parameters took effect for unregistered/absent client %r" % (tag, ident), rec)
@@ -496,7 +546,7 @@ class Runner:
         if not permitted(alg, reg.get(ident), prov):
             r = reg.get(ident)
             if alg == "none":
-                sig = "unsigned-accepted"
+                sig = "unsigned-inside-jwe" if wrapped else "unsigned-accepted"
             elif isinstance(r, str) and alg in r:
                 sig = "alg-substring"
             else:
@@ -508,6 +558,9 @@ class Runner:
         if alg != "none" and sg is not None and sg["alg"] == alg and canon_claims(sg["claims"]) == claims and sg["owner"] == ident:
             self.accepted_genuine += 1
             ctx.count("genuine-accepted:" + transport)
+            if wrapped:
+                self.accepted_wrapped.add(transport)
+                ctx.count("genuine-accepted-jwe:" + transport)
 
 
 # ------------------------------------------------------------------ generators
@@ -718,6 +771,180 @@ def gen_random(R, rng, count):
         R.run_case("random", (oidc, meth, True, 3600), conf, docs, ops, note="random %s" % transport)
 
 
+# ------------------------------------------------------------------ the wrapper dimension: a JWE around the object
+HDRS = [{"alg": "RSA-OAEP", "enc": "A256GCM"}, {"alg": "ECDH-ES", "enc": "A128GCM"}]
+
+
+def jwe(inner, k=0, cty=None, to="OP", damage=None, **over):
+    """a wrapper addressed to the provider's (to="OP") or to a stranger's encryption key around [inner]"""
+    return {"jwe": dict(dict(HDRS[k % 2], cty=cty, to=to, damage=damage), **over), "inner": inner}
+
+
+def wrapped_inners(n, reg_alg):
+    """(name, inner, wrapper overrides): what can be inside a wrapper addressed to the provider - every way the innermost
+    object can fail to be a JWS signed by client_1's registered key with a permitted algorithm, and the genuine ones"""
+    c = base_claims("client_1", n)
+    I = [("json", {"json": c}, {}),                                                   # (a) claims nobody signed
+         ("json-noiss", {"json": without(c, "iss")}, {}),
+         ("none", genuine("client_1", "none", c), {}),                                # (b) alg=none JWS
+         ("mallory-RS256", genuine("mallory", "RS256", c), {}),                       # (c) foreign / another client's key
+         ("client_2-ES256", genuine("client_2", "ES256", c), {}),
+         ("client_2-HS256", genuine("client_2", "HS256", c), {}),
+         ("tampered", {"alg": "RS256", "claims": dict(c, scope="openid phone", state="evil"),
+                       "sig": {"owner": "client_1", "alg": "RS256", "claims": c}}, {}),   # (d) signature does not cover the payload
+         ("nosig", {"alg": "ES256", "claims": c, "sig": None}, {}),
+         ("genuine-RS256", genuine("client_1", "RS256", c), {}),                      # (e)/(f): permitted or not by the configuration
+         ("genuine-ES256", genuine("client_1", "ES256", c), {}),
+         ("genuine-HS256", genuine("client_1", "HS256", c), {}),
+         ("stranger-key", genuine("client_1", reg_alg, c), {"to": "other"}),          # (g) a key the provider does not have
+         ("stranger-key-json", {"json": c}, {"to": "other"}),
+         ("cut", genuine("client_1", reg_alg, c), {"damage": "cut"}),                 # (h) truncated / altered JWE
+         ("tag", genuine("client_1", reg_alg, c), {"damage": "tag"}),
+         ("seg4", {"json": c}, {"damage": "seg4"})]
+    return I
+
+
+WREGS = [None, "RS256", "ES256", "HS256", "none"]
+
+
+def gen_wrapped(R, quick):
+    import itertools
+    import srv_c16 as S
+    k = 0
+    # (1) wrapper matrix: inner x registered signing alg x provider set x transport, OAuth2 / OIDC, with / without RequestParam,
+    #     cty absent / "JWT", RSA-OAEP / ECDH-ES (alternating)
+    for (oidc, meth), full in (((False, "all"), True), ((True, "pub"), True), ((True, "all"), False), ((False, "pub"), False),
+                               ((False, "rp_pub"), False)):
+        for transport in ("value", "uri", "par"):
+            for reg in WREGS:
+                for prov in PROVS:
+                    if not full and quick and (prov is not None or reg not in (None, "RS256", "none")):
+                        continue
+                    if not full and transport == "uri" and quick:
+                        continue
+                    reg_alg = reg if reg not in (None, "none") else "RS256"
+                    for name, inner, over in wrapped_inners(4, reg_alg):
+                        ctys = (None, "JWT") if meth != "pub" and (full or name.startswith("json")) else (None,)
+                        for cty in ctys:
+                            k += 1
+                            obj = jwe(inner, k, cty=cty, **over)
+                            docs, ops = ops_for(transport, 4, obj, {})
+                            conf = {"reg": {"client_1": reg, "client_2": "ES256"}, "prov_algs": prov}
+                            R.run_case("jwe", (oidc, meth, True, 3600), conf, docs, ops,
+                                       note="%s/jwe(%s,%s,cty=%s) around %s reg=%r prov=%r" % (
+                                           transport, obj["jwe"]["alg"], obj["jwe"]["enc"], cty, name, reg, prov))
+    # (2) other header values and other plaintexts (cty spellings; key management / content encryption algorithms;
+    #     a JWE inside the JWE; text that is neither JWS nor claims; a malformed JWS inside)
+    c = base_claims("client_1", 5)
+    g = genuine("client_1", "RS256", c)
+    extra = [("cty-jwt-lower", jwe(g, 0, cty="jwt")), ("cty-json", jwe(g, 0, cty="json")), ("cty-app-jwt", jwe({"json": c}, 0, cty="application/jwt")),
+             ("cty-jwt-lower-json", jwe({"json": c}, 1, cty="jwt")), ("A128CBC-HS256", jwe(g, 0, enc="A128CBC-HS256")),
+             ("RSA1_5", jwe(g, 0, alg="RSA1_5")), ("RSA-OAEP-256", jwe({"json": c}, 0, alg="RSA-OAEP-256")),
+             ("ECDH-ES+A128KW", jwe(g, 1, alg="ECDH-ES+A128KW")), ("nested", jwe(jwe(g, 0), 1)), ("nested-cty", jwe(jwe({"json": c}, 1), 0, cty="JWT")),
+             ("text", jwe({"text": "garbage"}, 0)), ("text-cty", jwe({"text": "a.b.c"}, 1, cty="JWT")), ("bad-inner", jwe({"bad": "abc.def"}, 0)),
+             ("json-list", jwe({"text": "[1, 2]"}, 0))]
+    for oidc, meth in ((False, "all"), (True, "all"), (True, "pub")):
+        for transport in ("value", "uri", "par"):
+            for reg in (None, "RS256", "none"):
+                for name, obj in extra:
+                    docs, ops = ops_for(transport, 5, obj, {})
+                    R.run_case("jwe", (oidc, meth, True, 3600), {"reg": {"client_1": reg}}, docs, ops, note="%s/jwe %s reg=%r" % (transport, name, reg))
+    # (3) registered request_object_encryption_alg / _enc that do and do not match the wrapper, provider sets, around a
+    #     genuine JWS / unsigned claims / no wrapper at all
+    encs = [[None, None], ["RSA-OAEP", "A256GCM"], ["ECDH-ES", "A128GCM"], ["RSA-OAEP", None], [None, "A256GCM"], ["RS256", None], ["RS256", "A256GCM"]]
+    penc = [None, [["RSA-OAEP", "ECDH-ES"], ["A256GCM", "A128GCM"]], [["RSA-OAEP", "RS256"], None], [["RS256", "ES256"], ["A256GCM"]]]
+    c = base_claims("client_1", 6)
+    for oidc, meth in ((False, "all"), (True, "pub")):
+        for transport in ("value", "uri", "par"):
+            for er in encs:
+                for pe in penc:
+                    if quick and pe is not None and er not in (encs[0], encs[1], encs[5]):
+                        continue
+                    for name, obj, reg in (("genuine", jwe(genuine("client_1", "RS256", c), 0), "RS256"),
+                                           ("genuine-es-ecdh", jwe(genuine("client_1", "ES256", c), 1, cty="JWT"), None),
+                                           ("json", jwe({"json": c}, 0), "none"), ("json-rs", jwe({"json": c}, 1), "RS256"),
+                                           ("plain", genuine("client_1", "RS256", c), "RS256")):
+                        docs, ops = ops_for(transport, 6, obj, {})
+                        conf = {"reg": {"client_1": reg}, "enc_reg": {"client_1": er}, "prov_enc": pe}
+                        R.run_case("jwe-enc", (oidc, meth, True, 3600), conf, docs, ops,
+                                   note="%s/%s enc registered %r provider %r" % (transport, name, er, pe))
+    # (4) who the request is attributed to when RequestParam reads claims nobody signed: outer client_1, claims of client_2
+    for oidc in (False, True):
+        for meth in ("all", "rp_pub", "pub"):
+            for transport in ("value", "par"):
+                for reg2 in (None, "none", "ES256"):
+                    for prov in (None, ["RS256", "none"]):
+                        for cty in (None, "JWT"):
+                            for iss, cid in (("client_2", "client_2"), ("client_2", "client_1"), ("client_1", "client_2"), ("nobody", "client_1"), (None, "client_2")):
+                                cl = dict(base_claims("client_2" if cid == "client_2" else "client_1", 7), iss=iss, client_id=cid)
+                                if iss is None:
+                                    cl.pop("iss")
+                                k += 1
+                                docs, ops = ops_for(transport, 7, jwe({"json": cl}, k, cty=cty), {})
+                                R.run_case("jwe-ident", (oidc, meth, True, 3600), {"reg": {"client_1": "RS256", "client_2": reg2}, "prov_algs": prov},
+                                           docs, ops, note="%s/jwe json iss=%s client_id=%s cty=%s reg2=%r prov=%r" % (transport, iss, cid, cty, reg2, prov))
+    # (5) PAR words with wrapped pushes: E = push a JWE around a genuine ES256 JWS, J = push a JWE around claims nobody signed
+    i = 0
+    for oidc, reg in ((False, "ES256"), (True, "ES256"), (True, "none"), (False, None)):
+        for ln in (1, 2, 3):
+            for word in itertools.product("EJLTU", repeat=ln):
+                word = "".join(word)
+                if ("E" not in word and "J" not in word) or (ln == 3 and (quick and (reg != "ES256" or not oidc))):
+                    continue
+                i += 1
+                R.run_case("par", (oidc, "pub", True, 10), {"reg": {"client_1": reg}}, {}, par_ops_from_word(word, "e%d" % i), note="par word " + word)
+
+
+def gen_random_wrapped(R, rng, count):
+    """random wrapped objects: random inner faults x random wrapper faults x random configuration"""
+    import srv_c16 as S
+    algs = ["RS256", "RS384", "ES256", "HS256", "none"]
+    for i in range(count):
+        oidc = rng.random() < 0.5
+        meth = rng.choice(["all", "rp_pub", "pub"])
+        transport = rng.choice(["value", "value", "uri", "par", "par"])
+        n = 300 + i
+        target = rng.choice(["client_1", "client_1", "client_2"])
+        c = base_claims(target, n)
+        if rng.random() < 0.15:
+            c = dict(c, iss=rng.choice(["client_1", "client_2", "mallory"]))
+        if rng.random() < 0.1:
+            c = without(c, "iss")
+        if rng.random() < 0.1:
+            c = dict(c, client_id=rng.choice(["client_1", "client_2", "nobody"]))
+        if rng.random() < 0.15:
+            c = dict(c, scope=rng.choice(["openid", "openid profile", "email"]))
+        r = rng.random()
+        if r < 0.3:
+            inner = {"json": c}
+        elif r < 0.34:
+            inner = {"text": rng.choice(["garbage", "{", "a.b.c", "[]"])}
+        else:
+            alg = rng.choice(algs)
+            owner = target if rng.random() < 0.7 else rng.choice(["client_1", "client_2", "mallory"])
+            inner = genuine(owner, alg, c)
+            r2 = rng.random()
+            if r2 < 0.08 and alg != "none":
+                inner = {"alg": alg, "claims": dict(c, state="evil%d" % n), "sig": inner["sig"]}
+            elif r2 < 0.12:
+                inner = {"alg": alg, "claims": c, "sig": None}
+        obj = jwe(inner, rng.randint(0, 1), cty=rng.choice([None, None, "JWT", "jwt", "json"]),
+                  to="other" if rng.random() < 0.06 else "OP", damage=rng.choice([None] * 14 + ["tag", "cut", "seg4"]))
+        over = {}
+        if target != "client_1" or rng.random() < 0.1:
+            over["client_id"] = target if rng.random() < 0.8 else rng.choice(["client_1", "client_2"])
+            over["redirect_uri"] = S.REDIRECT[over["client_id"]]
+        regs = {cid: rng.choice([None, "RS256", "ES256", "none", "none", ["RS256", "none"]]) for cid in ("client_1", "client_2")}
+        conf = {"reg": regs, "prov_algs": rng.choice([None, None] + PROVS)}
+        if rng.random() < 0.25:
+            conf["enc_reg"] = {target: rng.choice([["RSA-OAEP", "A256GCM"], ["ECDH-ES", None], ["RS256", "A256GCM"], [None, "A128GCM"]])}
+        if rng.random() < 0.15:
+            conf["prov_enc"] = rng.choice([[["RSA-OAEP", "ECDH-ES"], ["A256GCM", "A128GCM"]], [["RS256", "ES256", "none"], None]])
+        pusher = over.get("client_id", "client_1") if rng.random() < 0.8 else rng.choice(["client_1", "client_2"])
+        docs, ops = ops_for(transport, n, obj, over, pusher=pusher)
+        R.run_case("jwe-random", (oidc, meth, True, 3600), conf, docs, ops, note="random wrapped %s" % transport)
+
+
 PAR_ALPHABET = "PQRLTUX"
 
 
@@ -740,6 +967,10 @@ def par_ops_from_word(word, tag, spell=None):
         elif ch == "Q":
             c = dict(base_claims("client_1", 0), state="pushedobj_" + mk)
             ops.append(("push", "client_1", dict(base_outer("client_1", 0), state="outer_" + mk), genuine("client_1", "ES256", c)))
+        elif ch in "EJ":
+            c = dict(base_claims("client_1", 0), state="pushedjwe_" + mk)
+            inner = genuine("client_1", "ES256", c) if ch == "E" else {"json": c}
+            ops.append(("push", "client_1", dict(base_outer("client_1", 0), state="outer_" + mk), jwe(inner, k, cty="JWT" if k % 3 == 0 else None)))
         elif ch == "R":
             ops.append(("redeem", 0, dict(base_outer("client_1", 0), state="red_" + mk)))
         elif ch == "L":
@@ -854,6 +1085,10 @@ def run(ctx):
         flush(R, ctx, "par")
         gen_par_spelling(R, ctx.rng, ctx.quick)
         flush(R, ctx, "spelling")
+        gen_wrapped(R, ctx.quick)
+        flush(R, ctx, "jwe")
+        gen_random_wrapped(R, ctx.rng, 150 if ctx.quick else 4000)
+        flush(R, ctx, "jwerandom")
     finally:
         if R.clock is not None:
             R.clock.uninstall()
@@ -863,7 +1098,11 @@ def run(ctx):
                           "the theorems of Props/C16.v do not apply to this configuration")
     if R.accepted_genuine == 0:
         ctx.broken.append("harness sanity: no genuine request object was accepted on any transport")
-    ctx.notes.append("genuine objects accepted: %d" % R.accepted_genuine)
+    for tr in ("value", "pushed"):
+        if tr not in R.accepted_wrapped:
+            ctx.broken.append("harness sanity: no genuine request object inside an encrypted wrapper was accepted (%s): "
+                              "the provider no longer decrypts, the wrapper rows judge nothing" % tr)
+    ctx.notes.append("genuine objects accepted: %d (inside a JWE: %s)" % (R.accepted_genuine, ", ".join(sorted(R.accepted_wrapped)) or "none"))
 
 
 def replay(ctx, rp):
